@@ -153,3 +153,49 @@ class sysv_count:
     params = dict(self=Obj('ELFHashTable', params=Rec(nbuckets=U32, nchains=U32)))
     returns = Int
     ensures = ["result == self.params.nchains"]
+
+
+def _EF():
+    return ELFFileT(stream=SharedStream('elf'))
+
+
+SymTabShared = SectionT('SymbolTableSection', elffile=_EF(), stringtable=SectionT('StringTableSection', elffile=_EF()), _symbol_name_map=NoneT)
+GnuTabL = Obj('GNUHashTable', elffile=_EF(), _symboltable=SymTabShared, params=GnuParams, _wordsize=Const(4),
+              _xwordsize=Choice(4, 8), _chain_pos=Nat)
+
+
+@contract("elftools/elf/hash.py", "GNUHashTable._matches_bloom", props=["C03"])
+class matches_bloom:
+    """(assumed) the bloom filter test; that it never rejects a present name is part of the table's
+    well-formedness, not of the lookup"""
+    mode = 'assume'
+    returns = Bool
+
+
+@contract("elftools/elf/hash.py", "GNUHashTable.get_symbol", props=["C03", "C10"])
+class gnu_get_symbol:
+    """walks the chain of the name's bucket from its first symbol index: chain word j (at
+    chain_pos + (j - symoffset) * 4) carries the hash of symbol j with the low bit marking the end of the
+    chain; a symbol is returned only if it bears the name (soundness), and when nothing is returned no
+    entry of the chain up to its end has both the name's hash and the name (completeness) -- the file
+    stream is shared with the symbol and string tables, whose reads move it"""
+    params = dict(self=GnuTabL, name=Str)
+    requires = ["len(self.params.buckets) == self.params.nbuckets", "self.params.nbuckets > 0", "self._chain_pos < 2**62",
+                "self._symboltable.structs.elfclass == self._symboltable.elffile.elfclass"]
+    returns = Opt(SymRet)
+    ghost = {"$B": "self.elffile.stream.B", "$le": "self.elffile.little_endian", "$so": "self.params.symoffset", "$cp": "self._chain_pos",
+             "$T": "self._symboltable"}
+    loops = {0: dict(
+        ghost_entry={"$s0": "symidx"},
+        invariant=["symidx == $s0 + $k", "$s0 >= $so",
+                   "forall(lambda j: u32at($B, $cp + (j - $so) * 4, $le) % 2 == 0, $s0, symidx)",
+                   "forall(lambda j: not ((u32at($B, $cp + (j - $so) * 4, $le) // 2 == namehash // 2) and"
+                   " secname($T.stringtable, P('Elf_Sym', $B, $T.header.sh_offset + j * $T.header.sh_entsize).st_name) == name), $s0, symidx)"],
+        step=["cur_hash == u32at($B, $cp + (symidx - 1 - $so) * 4, $le)"],
+        # leaving the loop without a result: the chain ends here and no entry up to and including this one matched
+        on_break=["u32at($B, $cp + (symidx - $so) * 4, $le) % 2 == 1",
+              "forall(lambda j: not ((u32at($B, $cp + (j - $so) * 4, $le) // 2 == namehash // 2) and"
+              " secname($T.stringtable, P('Elf_Sym', $B, $T.header.sh_offset + j * $T.header.sh_entsize).st_name) == name), $s0, symidx + 1)"],
+        variant="len($B) + 4 - ($cp + (symidx - $so) * 4)")}
+    ensures = ["result is None or result.name == name"]
+    may_raise = ["error", "ELFParseError", "OverflowError", "UnicodeDecodeError"]
